@@ -220,6 +220,8 @@ type Subscription struct {
 	ch         chan *Msg
 	done       chan struct{}
 	delivered  uint64
+	limMsgs    int // pending limits as in nats.go (0: the library defaults, 524288 messages / 64 MiB)
+	limBytes   int
 }
 
 // World holds all servers and connections of one simulated run.
@@ -249,6 +251,7 @@ type World struct {
 type Stats struct {
 	Routed, Dispatched, NoResponders, DroppedUplink, DroppedInbound, DroppedClosed int
 	Cuts, Reconnects, ConnectFails, ReqTimeouts, BufExceeded                       int
+	SlowConsumerDrops                                                              int
 }
 
 // BusEvent is what an Observer sees.
@@ -779,6 +782,25 @@ func (s *Subscription) IsValid() bool {
 	return !s.closed
 }
 
+// SetPendingLimits sets the limits for queued messages and bytes of this subscription (negative: unlimited), as in
+// nats.go: a message that would exceed them is dropped (slow consumer).
+func (s *Subscription) SetPendingLimits(msgLimit, bytesLimit int) error {
+	if s == nil {
+		return ErrBadSubscription
+	}
+	if msgLimit == 0 || bytesLimit == 0 {
+		return errors.New("nats: invalid argument")
+	}
+	w := s.conn.w
+	w.mu.Lock()
+	defer w.mu.Unlock()
+	if s.closed {
+		return ErrBadSubscription
+	}
+	s.limMsgs, s.limBytes = msgLimit, bytesLimit
+	return nil
+}
+
 // Pending returns the number of queued messages and bytes.
 func (s *Subscription) Pending() (int, int, error) {
 	if s == nil {
@@ -988,6 +1010,22 @@ func (w *World) routeLocked(c *Conn) {
 			s.conn.arrival++
 			m := &Msg{Subject: o.Subject, Reply: o.Reply, Data: o.Data, Sub: s, Seq: w.seq, From: c,
 				arrival: s.conn.arrival}
+			// slow consumer: nats.go drops a message that would take the subscription over its pending limits
+			lm, lb := s.limMsgs, s.limBytes
+			if lm == 0 {
+				lm = 524288
+			}
+			if lb == 0 {
+				lb = 64 * 1024 * 1024
+			}
+			pb := len(m.Data)
+			for _, q := range s.inbox {
+				pb += len(q.Data)
+			}
+			if (lm > 0 && len(s.inbox)+1 > lm) || (lb > 0 && pb > lb) {
+				w.Stats.SlowConsumerDrops++
+				continue
+			}
 			s.inbox = append(s.inbox, m)
 		}
 		if len(matched) == 0 && o.Reply != "" {
